@@ -16,6 +16,7 @@ import PurlModel.Lemmas.ParseErrors
 import PurlModel.Lemmas.ChecksumCanon
 import PurlModel.Lemmas.TypedVsGeneric
 import PurlModel.Lemmas.RustUnicode
+import PurlModel.Lemmas.PiecesFaults
 namespace Purl.C05
 open Purl Purl.Generated
 
@@ -243,7 +244,149 @@ theorem typed_wraps_generic_errors (s : Str) (e : PErr) (h : parsePre U s = fail
   rw [h]
   rfl
 
+/-! ### (c) ONE DEFECT INSIDE AN OTHERWISE VALID SPELLING
+
+For any string assembled from component spellings (`Pieces`: any number of slashes after `pkg:`,
+raw '#', '?', '@' wherever right-to-left splitting tolerates them — side conditions `Pieces.Sep`,
+which do NOT require a valid type), the result is determined piece by piece in the code's order
+(`spelling_result`).  Hence: a single defective piece — the others decoding — gives exactly its
+error, wherever the other pieces put their characters and however the defect is spelled (the
+hypothesis is only "this piece does not decode" / "this type is not valid"). -/
+
+/-- the parser on any assembled spelling, defective pieces included -/
+theorem spelling_result (w : Pieces) (sep : w.Sep) :
+    parseS U w.assemble =
+      (match w.subR with
+       | .error e => fail e
+       | .ok sub =>
+         match w.qualsR U with
+         | .error f => .error f
+         | .ok q =>
+           if !isValidType w.ty then fail .invalidPackageType
+           else
+             match w.verR with
+             | .error e => fail e
+             | .ok ver =>
+               match w.nsR with
+               | .error e => fail e
+               | .ok ns =>
+                 match decode w.name with
+                 | .error e => fail e
+                 | .ok n => buildS U ⟨w.ty, { ns := ns, name := n, version := ver, quals := q, subpath := sub }⟩) :=
+  parseS_pieces_eq U w sep
+
+theorem subR_error_kind {w : Pieces} {e : PErr} (h : w.subR = .error e) : e = .invalidEscape := by
+  unfold Pieces.subR at h
+  split at h
+  · exact decodeSubpath_error_kind h
+  · cases h
+
+theorem verR_error_kind {w : Pieces} {e : PErr} (h : w.verR = .error e) : e = .invalidEscape := by
+  unfold Pieces.verR at h
+  split at h
+  · exact decode_error_kind h
+  · cases h
+
+theorem nsR_error_kind {w : Pieces} {e : PErr} (h : w.nsR = .error e) : e = .invalidEscape := by
+  unfold Pieces.nsR at h
+  split at h
+  · exact decodeNamespace_error_kind h
+  · cases h
+
+/-- a subpath that does not decode (invalid UTF-8 behind escapes, a '/' or a dot segment hidden
+behind an escape): InvalidEscape, whatever the rest of the string is -/
+theorem fault_subpath (w : Pieces) (sep : w.Sep) (e : PErr) (h : w.subR = .error e) :
+    parseS U w.assemble = fail .invalidEscape ∧ parseP U w.assemble = fail (.parse .invalidEscape) := by
+  have := subR_error_kind h
+  subst this
+  rw [parseS_pieces_eq U w sep, parseP_pieces_eq U w sep, h]
+  exact ⟨rfl, rfl⟩
+
+/-- defective qualifiers (the subpath decoding): the qualifier loop's fault, which
+`qualifier_errors` determines from the first defective item -/
+theorem fault_qualifiers (w : Pieces) (sep : w.Sep) (sub : Str) (hsub : w.subR = .ok sub) (f : Fault PErr)
+    (h : w.qualsR U = .error f) :
+    parseS U w.assemble = .error f ∧ parseP U w.assemble = .error (f.map .parse) := by
+  rw [parseS_pieces_eq U w sep, parseP_pieces_eq U w sep, hsub, h]
+  exact ⟨rfl, rfl⟩
+
+/-- a syntactically invalid (e.g. percent-encoded, or non-ASCII) type: InvalidPackageType -/
+theorem fault_type (w : Pieces) (sep : w.Sep) (sub : Str) (q : Quals) (hsub : w.subR = .ok sub)
+    (hq : w.qualsR U = .ok q) (hty : isValidType w.ty = false) :
+    parseS U w.assemble = fail .invalidPackageType ∧ parseP U w.assemble = fail (.parse .invalidPackageType) := by
+  rw [parseS_pieces_eq U w sep, parseP_pieces_eq U w sep, hsub, hq]
+  simp [hty]
+
+/-- a well-formed type the typed PURL does not know: UnsupportedType -/
+theorem fault_unknown_type (w : Pieces) (sep : w.Sep) (sub : Str) (q : Quals) (hsub : w.subR = .ok sub)
+    (hq : w.qualsR U = .ok q) (hty : isValidType w.ty = true) (hun : PkgType.ofStr U w.ty = none) :
+    parseP U w.assemble = fail .unsupportedType := by
+  rw [parseP_pieces_eq U w sep, hsub, hq]
+  simp [hty, hun]
+
+/-- a version that does not decode: InvalidEscape -/
+theorem fault_version (w : Pieces) (sep : w.Sep) (sub : Str) (q : Quals) (hsub : w.subR = .ok sub)
+    (hq : w.qualsR U = .ok q) (hty : isValidType w.ty = true) (e : PErr) (h : w.verR = .error e) :
+    parseS U w.assemble = fail .invalidEscape ∧
+    (∀ t, PkgType.ofStr U w.ty = some t → parseP U w.assemble = fail (.parse .invalidEscape)) := by
+  have := verR_error_kind h
+  subst this
+  rw [parseS_pieces_eq U w sep, parseP_pieces_eq U w sep, hsub, hq, h]
+  refine ⟨by simp [hty], ?_⟩
+  intro t ht
+  simp [hty, ht]
+
+/-- a namespace that does not decode (invalid UTF-8, or a segment hiding '/'): InvalidEscape -/
+theorem fault_namespace (w : Pieces) (sep : w.Sep) (sub ver : Str) (q : Quals) (hsub : w.subR = .ok sub)
+    (hq : w.qualsR U = .ok q) (hty : isValidType w.ty = true) (hver : w.verR = .ok ver) (e : PErr)
+    (h : w.nsR = .error e) :
+    parseS U w.assemble = fail .invalidEscape ∧
+    (∀ t, PkgType.ofStr U w.ty = some t → parseP U w.assemble = fail (.parse .invalidEscape)) := by
+  have := nsR_error_kind h
+  subst this
+  rw [parseS_pieces_eq U w sep, parseP_pieces_eq U w sep, hsub, hq, hver, h]
+  refine ⟨by simp [hty], ?_⟩
+  intro t ht
+  simp [hty, ht]
+
+/-- a name that does not decode: InvalidEscape -/
+theorem fault_name (w : Pieces) (sep : w.Sep) (sub ver ns : Str) (q : Quals) (hsub : w.subR = .ok sub)
+    (hq : w.qualsR U = .ok q) (hty : isValidType w.ty = true) (hver : w.verR = .ok ver) (hns : w.nsR = .ok ns)
+    (e : PErr) (h : decode w.name = .error e) :
+    parseS U w.assemble = fail .invalidEscape ∧
+    (∀ t, PkgType.ofStr U w.ty = some t → parseP U w.assemble = fail (.parse .invalidEscape)) := by
+  have := decode_error_kind h
+  subst this
+  rw [parseS_pieces_eq U w sep, parseP_pieces_eq U w sep, hsub, hq, hver, hns, h]
+  refine ⟨by simp [hty], ?_⟩
+  intro t ht
+  simp [hty, ht]
+
+/-- an empty name: MissingRequiredField(Name) -/
+theorem fault_empty_name (w : Pieces) (sep : w.Sep) (sub ver ns : Str) (q : Quals) (hsub : w.subR = .ok sub)
+    (hq : w.qualsR U = .ok q) (hty : isValidType w.ty = true) (hver : w.verR = .ok ver) (hns : w.nsR = .ok ns)
+    (h : decode w.name = .ok []) :
+    parseS U w.assemble = fail (.missingRequiredField .name) := by
+  rw [parseS_pieces_eq U w sep, hsub, hq, hver, hns, h]
+  simp only [hty, Bool.not_true, Bool.false_eq_true, if_false]
+  unfold buildS buildWith
+  simp only [stringShape, strPreviewMut, hty, Bool.not_true, Bool.false_eq_true, if_false]
+  exact empty_name_refused U id _ _ rfl
+
 /-! ### non-vacuity -/
+/-- `pkg://%41/n@1` : a percent-encoded type in an otherwise valid spelling -/
+def wBadType : Pieces := ⟨1, ['%', '4', '1'], none, ['n'], some ['1'], none, none⟩
+/-- `pkg:t/a%2Fb/n` : a namespace segment hiding a '/' -/
+def wHiddenSlash : Pieces := ⟨0, ['t'], some ['a', '%', '2', 'F', 'b'], ['n'], none, none, none⟩
+
+example : wBadType.Sep := by
+  refine ⟨by decide, by decide, ?_, ?_, ?_, by decide⟩ <;> simp [wBadType, Pieces.path, Pieces.nsPart, Pieces.verPart, Pieces.qPart]
+example : wBadType.subR = .ok [] ∧ wBadType.qualsR U = .ok [] ∧ isValidType wBadType.ty = false :=
+  ⟨rfl, rfl, by decide⟩
+example : wHiddenSlash.Sep := by
+  refine ⟨by decide, by decide, ?_, ?_, ?_, by decide⟩ <;> simp [wHiddenSlash, Pieces.path, Pieces.nsPart, Pieces.verPart, Pieces.qPart]
+example : wHiddenSlash.nsR = .error .invalidEscape := by decide
+
 example : stripPrefix schemePrefix ['h', 't', 't', 'p', ':'] = none := by decide
 example : isValidType ['%', '4', '1'] = false ∧ isValidKey ['k', '!'] = false := by decide
 
